@@ -35,6 +35,10 @@ func runC05(c *engine.Ctx) {
 	r5 := c.Rule("R5", "a response is stored only where no live entry exists for its ID", 1)
 	// the subscriber (R4) retires a request when the message carrying its final status is reported sent or failed:
 	// that report must exist for every message taken off a queue (the per-message obligation of C15.R3 / C16.R1)
+	r8 := c.Rule("R8", "every popped task is released exactly once, whatever became of its request (C21.R4): a leaked active task keeps the retired request in the peer's reported state and starves the peer", 2)
+	c21Release(c, r8, c.P.FuncsIn("taskqueue"))
+	r7 := c.Rule("R7", "a handler that queues a final status for a response it holds marks the response CompletingSend (so nothing else is done with it while the status goes out)", 1)
+	c05FinalStatusMarks(c, r7)
 	r6 := c.Rule("R6", "every message taken off a peer's queue is reported sent or failed exactly once (the event R4's retirement waits for)", 2)
 	if m := loadMQ(c, r6); m.ok {
 		c15Reports(c, r6, m)
@@ -421,4 +425,67 @@ func sameIDExpr(a, b ssa.Value) bool {
 		return engine.SameValue(ca.Call.Args[0], cb.Call.Args[0])
 	}
 	return false
+}
+
+// c05FinalStatusMarks (R7): between queuing the final status and its being sent the entry is still in the table; only
+// the CompletingSend state keeps cancels, updates, unpauses and pauses from acting on it (they all test for it), so
+// that the request has exactly one outcome.
+func c05FinalStatusMarks(c *engine.Ctx, rule string) {
+	m := loadMgr(c, rule, "responsemanager")
+	if m == nil {
+		return
+	}
+	n := 0
+	for _, f := range m.fns {
+		if f.Parent() != nil {
+			continue
+		}
+		// does f have the entry in hand?
+		touches := false
+		engine.Instrs(f, func(in ssa.Instruction) {
+			if fa, ok := in.(*ssa.FieldAddr); ok && engine.FieldOf(fa) == m.state {
+				touches = true
+			}
+		})
+		if !touches {
+			continue
+		}
+		for _, ci := range engine.Calls(f) {
+			if !ci.Common.IsInvoke() || ci.Common.Method.Name() != "Transaction" {
+				continue
+			}
+			lit := resolveFuncValue(ci.Common.Args[0])
+			if lit == nil {
+				continue
+			}
+			finishes := false
+			for _, g := range engine.WithClosures(lit) {
+				for _, cj := range engine.Calls(g) {
+					if cj.Common.IsInvoke() && (cj.Common.Method.Name() == "FinishWithError" || cj.Common.Method.Name() == "FinishRequest") {
+						finishes = true
+					}
+				}
+			}
+			if !finishes {
+				continue
+			}
+			n++
+			marked := false
+			for _, s := range m.stateStores() {
+				if s.st.Parent() != f || s.name != "CompletingSend" {
+					continue
+				}
+				after, _ := engine.CanReach(ci.Instr, func(in ssa.Instruction) bool { return in == ssa.Instruction(s.st) }, nil)
+				if engine.Before(s.st, ci.Instr) || after {
+					marked = true
+				}
+			}
+			c.Decide(rule, engine.FuncName(f)+"|final-status-marks-completing", ci.Instr.Pos(), marked,
+				"the response is marked CompletingSend where its final status is queued",
+				"a final status is queued for a response that is left in its old state: until the message has gone out the response still accepts cancels, updates and unpauses, and the request ends with two outcomes (e.g. cancelled and completed)")
+		}
+	}
+	if n == 0 {
+		c.AnchorMissing(rule, "a responsemanager handler that queues a final status for an entry it holds")
+	}
 }
